@@ -42,12 +42,12 @@ impl Check for C18 {
         "C18"
     }
     fn rule(&self) -> String {
-        "indices below 12 x sequences: EVERY sample sequence up to length 5 (quick) / 6 (thorough) over a 4- (5-) state alphabet in 12 fixtures (6 space kinds x {alphabet world, obstacle-free}); remaining indices: scenario i = space, world (obstacle-free for the exact clauses, obstructed for soundness), connection radius, a sample budget N fixed by the virtual clock (a stall at the N-th sample, N from 1 up), sampling passthrough or scripted over a state alphabet, two problems, and a call history (construct, construct again, solve, replace problem, solve); the reference model replays the recorded sample stream and validity answers; distinct = distinct scenario hash; non-trivial = the roadmap has at least 2 milestones and a query executed".into()
+        "indices below 12 x sequences: EVERY sample sequence up to length 6 (quick) / 7 (thorough) over a 4- (5-) state alphabet in 12 fixtures (6 space kinds x {alphabet world, obstacle-free}); remaining indices: scenario i = space, world (obstacle-free for the exact clauses, obstructed for soundness), connection radius, a sample budget N fixed by the virtual clock (a stall at the N-th sample, N from 1 up), sampling passthrough or scripted over a state alphabet, two problems, and a call history (construct, construct again, solve, replace problem, solve); the reference model replays the recorded sample stream and validity answers; distinct = distinct scenario hash; non-trivial = the roadmap has at least 2 milestones and a query executed".into()
     }
     fn default_runs(&self, tier: Tier) -> u64 {
         match tier {
-            Tier::Quick => 12 * crate::treechecks::seq_total(4, 5) + 50_000,
-            Tier::Thorough => 12 * crate::treechecks::seq_total(5, 6) + 1_000_000,
+            Tier::Quick => 12 * crate::treechecks::seq_total(4, 6) + 50_000,
+            Tier::Thorough => 12 * crate::treechecks::seq_total(5, 7) + 1_000_000,
         }
     }
     fn assumptions(&self) -> Vec<String> {
@@ -61,7 +61,7 @@ impl Check for C18 {
     }
 
     fn generate(&self, seed: u64, index: u64, tier: Tier) -> Scenario {
-        let (a, d) = if tier == Tier::Thorough { (5u64, 6u32) } else { (4u64, 5u32) };
+        let (a, d) = if tier == Tier::Thorough { (5u64, 7u32) } else { (4u64, 6u32) };
         let per = crate::treechecks::seq_total(a, d);
         if index < 12 * per {
             // EVERY sample sequence up to depth d over the fixture's alphabet
